@@ -20,7 +20,7 @@ ASSUMPTIONS = [
     "a fault is 'rejected' when the call raises any exception and returns no value; the exception type is not demanded",
     "fault classes are scoped to the layer whose anchor names the rule (network invariants on Network, ground/id on Circuit, signs on component constructors, typed errors on loaders)",
 ]
-N_BASE = {'quick': 112, 'thorough': 960}
+N_BASE = {'quick': 168, 'thorough': 960}
 
 SIGNED = {  # constructor -> (base kwargs, parameters that must not be negative)
     'resistor': ({'R': 10.0}, ['R']),
